@@ -199,6 +199,12 @@ func hamtMutators() []mutator {
 		{"fanout-4", func(hc *HostileCase) { hc.block("root").U.Fanout = up(4) }},
 		{"fanout-2048", func(hc *HostileCase) { hc.block("root").U.Fanout = up(2048) }},
 		{"fanout-2^63", func(hc *HostileCase) { hc.block("ch").U.Fanout = up(1 << 63) }},
+		// powers of two far above the permitted width: nothing may be sized from them
+		{"fanout-2^62", func(hc *HostileCase) { hc.block("root").U.Fanout = up(1 << 62) }},
+		{"fanout-2^40", func(hc *HostileCase) { hc.block("root").U.Fanout = up(1 << 40) }},
+		{"fanout-2^28", func(hc *HostileCase) { hc.block("root").U.Fanout = up(1 << 28) }},
+		{"fanout-2^62-child", func(hc *HostileCase) { hc.block("ch").U.Fanout = up(1 << 62) }},
+		{"fanout-2^28-child", func(hc *HostileCase) { hc.block("ch").U.Fanout = up(1 << 28) }},
 		{"dup-bucket", func(hc *HostileCase) {
 			b := hc.block("root")
 			b.Links = append(b.Links, b.Links[len(b.Links)-1])
@@ -441,6 +447,20 @@ func reifyCases() []*HostileCase {
 			hc.Names = names
 			add(class, fmt.Sprintf("named-%s-%d", kind, n), hc)
 		}
+	}
+	// roots that carry a modification time (second 0 = 1970-01-01, what reproducible builds stamp; before 1970; with nanoseconds)
+	i64 := func(v int64) *int64 { return &v }
+	for mi, mt := range []*HUnixFS{{MtimeSec: i64(0)}, {MtimeSec: i64(0), MtimeNs: u32(0)}, {MtimeSec: i64(1)}, {MtimeSec: i64(-1), MtimeNs: u32(999999999)},
+		{MtimeSec: i64(1700000000), MtimeNs: u32(5)}} {
+		with := func(u *HUnixFS) *HUnixFS { u.MtimeSec, u.MtimeNs = mt.MtimeSec, mt.MtimeNs; return u }
+		add("file", fmt.Sprintf("mtime%d-file-links", mi), one(HBlock{DataKind: "unixfs", U: with(&HUnixFS{Type: tp(2), FileSize: up(3), BlockSizes: []uint64{3}}), Links: flinks}))
+		add("file", fmt.Sprintf("mtime%d-file-inline", mi), one(HBlock{DataKind: "unixfs", U: with(&HUnixFS{Type: tp(2), HasData: true, Data: []byte("inline data"), FileSize: up(11)})}))
+		add("file", fmt.Sprintf("mtime%d-raw-inline", mi), one(HBlock{DataKind: "unixfs", U: with(&HUnixFS{Type: tp(0), HasData: true, Data: []byte("r")})}))
+		add("dir", fmt.Sprintf("mtime%d-dir", mi), one(HBlock{DataKind: "unixfs", U: with(&HUnixFS{Type: tp(1)}), Links: links}))
+		add("linkmap", fmt.Sprintf("mtime%d-symlink", mi), one(HBlock{DataKind: "unixfs", U: with(&HUnixFS{Type: tp(4), HasData: true, Data: []byte("t")})}))
+		hm := baseHamt()
+		with(hm.block("root").U)
+		add("hamt", fmt.Sprintf("mtime%d-hamt", mi), hm)
 	}
 	add("dir", "dir-links", one(HBlock{DataKind: "unixfs", U: &HUnixFS{Type: tp(1)}, Links: links}))
 	add("dir", "dir-empty", one(HBlock{DataKind: "unixfs", U: &HUnixFS{Type: tp(1)}}))
